@@ -98,6 +98,16 @@ def shard(ctx, arg):
         for s in strs[20:]:
             m.extra_refs.append(W.Str(s))
         opts = {}
+        r_ = rng.random()
+        if r_ < 0.25:
+            opts["string_data_order"] = "reversed"       # string_ids hold offsets: the data items may lie in any order
+        elif r_ < 0.5:
+            opts["string_data_order"] = __import__("random").Random(rng.getrandbits(32))
+        if rng.random() < 0.25:
+            prng = __import__("random").Random(rng.getrandbits(32))
+            opts["string_size_pad"] = lambda: prng.choice([0, 0, 1, 2])     # valid non-minimal uleb128 utf16_size
+        if "" not in strs and rng.random() < 0.5:
+            m.extra_refs.append(W.Str(""))
         last_at_eof = rng.random() < 0.3
         data, w = W.write_dex(m, opts, want_writer=True)
         ctx.ev()
